@@ -10,7 +10,7 @@ from .models import key, all_outs
 def graphs(draw, max_edges=8, features=None):
     """Layered DAG by construction. `features` switches classes on/off (all on by default)."""
     f = dict(phony=True, restat=True, generator=True, deps=True, hidden_generated=True, multi_out=True,
-             implicit_out=True, validations=True, pools=True, rsp=True, subdirs=True, unordered_hidden=True)
+             implicit_out=True, validations=True, pools=True, rsp=True, subdirs=True, unordered_hidden=True, dyndep=False)
     f.update(features or {})
     nsrc = draw(st.integers(1, 4))
     srcs = ["s%d" % i for i in range(nsrc)]
@@ -59,6 +59,8 @@ def graphs(draw, max_edges=8, features=None):
                 cand = [a for a in rest if not a.startswith('ph') and (f['hidden_generated'] or a.startswith('s'))]
                 e['hidden'] = pick(cand, 0, 2)
                 e['depfile_layout'] = draw(st.integers(0, 3))
+                # how the "compiler" spells each hidden read in its depfile: canonical, or as -Iinc/.. style paths do
+                e['spell'] = draw(st.integers(0, 3))
                 # a generated hidden read normally has an order-only manifest path to its producer (the
                 # documented practice); sometimes it has none at all (the D2 / missingdeps shape)
                 for h in e['hidden']:
@@ -71,6 +73,9 @@ def graphs(draw, max_edges=8, features=None):
                 e['pool'] = 'console'
             if f['rsp'] and draw(st.integers(0, 6)) == 6:
                 e['rsp'] = 'r0'
+        if (not phony and not e['restat'] and not e['generator'] and not e['deps'] and not e['pool'] and e['rsp'] is None
+                and draw(st.integers(0, 4)) == 4):
+            e['bare'] = True     # no indented bindings at all: everything comes from a rule of its own
         if f['validations'] and edges and draw(st.integers(0, 6)) == 6:
             # validation: any earlier output, or (added later) an output that depends on this one
             e['vals'] = [draw(st.sampled_from([o for x in edges for o in all_outs(x)]))]
@@ -83,7 +88,52 @@ def graphs(draw, max_edges=8, features=None):
         if later:
             v = draw(st.sampled_from(later))
             edges[i]['vals'] = edges[i]['vals'] + [key(v)]
-    return dict(srcs=srcs, edges=edges, pools=pools)
+    g = dict(srcs=srcs, edges=edges, pools=pools)
+    if f['dyndep'] is True or (f['dyndep'] == 'some' and draw(st.integers(0, 3)) == 3):
+        add_dyndep(draw, g)
+    return g
+
+
+def add_dyndep(draw, g):
+    """binds 1-3 statements to a dyndep file (a source, or produced by a new first statement from a source): the file adds
+    implicit inputs (sources / earlier outputs, incl. implicit outputs another bound statement gets from the same
+    file), implicit outputs and restat"""
+    edges = g['edges']
+    cand = [i for i, e in enumerate(edges) if not e['phony'] and not e['generator']]
+    if not cand:
+        return
+    ndd = draw(st.integers(1, 2))
+    g['dd_files'] = {}
+    producers = []
+    for d in range(ndd):
+        dd = "dd%d" % d
+        bound = draw(st.lists(st.sampled_from(cand), min_size=1, max_size=3, unique=True))
+        bound = [i for i in sorted(bound) if not edges[i].get('dd')]
+        if not bound:
+            continue
+        produced = draw(st.booleans())
+        g['dd_files'][dd] = dict(produced=produced)
+        new_outs = []
+        for i in bound:
+            e = edges[i]
+            earlier = list(g['srcs']) + [o for x in edges[:i] for o in all_outs(x) if not x['phony']] + new_outs
+            earlier = [x for x in earlier if x not in e['exp'] + e['imp'] + e['oo'] + e.get('hidden', [])]
+            e['dd'] = dd
+            e['dd_ins'] = draw(st.lists(st.sampled_from(earlier), max_size=2, unique=True)) if earlier else []
+            e['dd_outs'] = ["ddo%d_%d" % (d, i)] if draw(st.integers(0, 2)) == 2 else []
+            e['dd_restat'] = draw(st.integers(0, 3)) == 3
+            new_outs += e['dd_outs']
+        if produced:
+            src = "ddsrc%d" % d
+            g['srcs'].append(src)
+            pe = dict(outs=[dd], iouts=[], phony=False, exp=[src], imp=[], oo=[], vals=[], restat=draw(st.booleans()), generator=False,
+                      deps='', hidden=[], variant='v0', pool='', rsp=None, dd=None, depfile_layout=0, is_dd_producer=True)
+            producers.append(pe)
+    for pe in producers:
+        edges.insert(0, pe)
+    for e in edges:
+        if e.get('is_dd_producer'):
+            e['content_override'] = {key(e): dict(by='', table={}, default=models.dyndep_text(g, key(e)))}
 
 
 def manifest(g):
@@ -95,6 +145,11 @@ def manifest(g):
              "  rspfile_content = $rsptag $in\n")
     for e in g['edges']:
         rule = 'phony' if e['phony'] else ('ccrsp' if e.get('rsp') is not None else 'cc')
+        if e.get('bare') and not e['phony']:
+            # a statement without build-level bindings: its rule carries the command variant and the dyndep binding
+            rule = "bare_%s" % key(e).replace("/", "_")
+            L.append("rule %s\n  command = cc $in -o $out # %s\n  description = CC $out\n%s" % (
+                rule, e['variant'], ("  dyndep = %s\n" % e['dd']) if e.get('dd') else ""))
         line = "build %s" % " ".join(e['outs'])
         if e.get('iouts'):
             line += " | " + " ".join(e['iouts'])
@@ -109,7 +164,7 @@ def manifest(g):
         if e.get('vals'):
             line += " |@ " + " ".join(e['vals'])
         L.append(line.rstrip() + "\n")
-        if not e['phony']:
+        if not e['phony'] and not e.get('bare'):
             L.append("  v = %s\n" % e['variant'])
             if e['restat']:
                 L.append("  restat = 1\n")
@@ -139,6 +194,8 @@ def sim_edges(g, faults=None):
             continue
         s = dict(reads=models.true_reads(g, e, ph), hidden=list(e.get('hidden', [])), variant=models.content_variant(e),
                  depfile_layout=e.get('depfile_layout', 0))
+        if e.get('spell') and e.get('deps') in ('gcc', 'depfile'):
+            s['hidden_spelled'] = [spell(h, e['spell']) for h in e.get('hidden', [])]
         if e.get('content_override'):
             s['content_override'] = e['content_override']
         if e.get('print'):
@@ -147,6 +204,18 @@ def sim_edges(g, faults=None):
             s.update(faults[key(e)])
         spec[key(e)] = s
     return spec
+
+
+def spell(path, style):
+    """a non-canonical spelling of the same file"""
+    if style == 1:
+        return "./" + path
+    if style == 2:
+        return "inc/../" + path
+    if style == 3:
+        d, _, b = path.rpartition("/")
+        return (d + "//" + b) if d else "./././" + path
+    return path
 
 
 def topo_targets(g):
